@@ -4,6 +4,7 @@ import Hgxv.Proofs.C19W
 import Hgxv.Proofs.C19B
 import Hgxv.Proofs.C19P
 import Hgxv.Proofs.C19S
+import Hgxv.Proofs.C19V
 import Hgxv.Proofs.C19LinkC02
 /-! # C19 - filters keep exactly what the criteria say; validation p-values follow the definition
 
@@ -759,3 +760,33 @@ example : (view03 (rmNode03 true (C03.applyOp (C03.applyOp (C03.Store.new true)
 example : (view04 (rmNode04 true (C04.run (C04.init true)
       [.addEdge [1, 2] 7 (some 8) none, .addEdge [1] 7 (some 4) none, .addEdge [2] 3 (some 4) none]) 2).1).edges =
     [(([1], [7]), (12, []))] := by decide
+
+/-! ### Part A: the allowed values of a criterion count as a set (strengthening round 3) -/
+
+/-- Criteria matching is `metadata.get(attr) in values`: only the MEMBERSHIP of the allowed values matters. Two criteria
+dictionaries with the same attributes whose allowed values have the same members - in whatever order and multiplicity,
+i.e. whether the caller hands them over as a list, a tuple, a set, a frozenset, the keys of a dict or a range - select the
+same items, remove the same nodes and leave the same content, for every container type, both modes, both `keep_edges`.
+(Object identity does not exist in the model: that equal label / value OBJECTS are treated alike by the implementation
+is what the correspondence check on freshly constructed objects establishes.) -/
+theorem C19_allowed_values_as_set {κ ω : Type} [DecidableEq κ] [Add ω] (ops : KeyOps κ) (c : Content κ ω)
+    (nc nc' ec ec' : Option Crit) (hn : SameCrit? nc nc') (he : SameCrit? ec ec') (mode : Mode) (keep : Bool) :
+    (∀ md, critSel nc mode md = critSel nc' mode md) ∧ (∀ md, critSel ec mode md = critSel ec' mode md) ∧
+    removedNodes c nc mode = removedNodes c nc' mode ∧
+    filterHg ops c nc ec mode keep = filterHg ops c nc' ec' mode keep :=
+  ⟨critSel_congr hn mode, critSel_congr he mode, removedNodes_congr c hn mode, filterHg_congr ops c hn he mode keep⟩
+
+example : SameCrit? (some [(0, [some 1, none, some 1]), (3, [])]) (some [(0, [none, some 1]), (3, [])]) ∧
+    ¬ SameCrit? (some [(0, [some 1])]) (some [(0, [some 1, none])]) ∧ ¬ SameCrit? (some []) none := by
+  refine ⟨?_, ?_, ?_⟩
+  · simp only [SameCrit?, SameCrit, true_and, and_true]
+    refine ⟨fun v => ?_, fun _ => trivial⟩
+    simp only [List.mem_cons, List.mem_nil_iff, or_false]
+    constructor
+    · rintro (h | h | h) <;> simp [h]
+    · rintro (h | h) <;> simp [h]
+  · simp only [SameCrit?, SameCrit, true_and, and_true]
+    intro h
+    have := (h none).2 (by simp)
+    simp at this
+  · simp [SameCrit?]
